@@ -467,6 +467,12 @@ class Interp:
             if isinstance(inner_, Ref):
                 return inner_
             return inner_
+        if k == "Borrow" and e.get("mut") and e["e"].get("k") == "Var":
+            # `&mut local` where the local holds a value the model keeps by value (a String, a number): the reference is the slot itself
+            ve = e["e"]
+            key_ = ve["id"] if ve["id"] in env else (ve.get("name") if ve.get("name") in env else None)
+            if key_ is not None and isinstance(env[key_], (str, int, float)):
+                return Ref(env, key_)
         if k in ("Borrow", "Deref", "Coerce", "RawBorrow"):
             v = self.ev(e["e"], env, depth)
             if k == "Deref" and isinstance(v, Ref):
@@ -1689,6 +1695,24 @@ class Interp:
                 while r_.startswith(pat):
                     r_ = r_[len(pat):]
             return r_
+        if gen in ("alloc::string::String::insert", "alloc::string::String::insert_str"):
+            cur = self.ev(args[0], env, depth)
+            target = cur if isinstance(cur, Ref) else None
+            cur = cur.get() if isinstance(cur, Ref) else cur
+            at_ = self.ev(args[1], env, depth)
+            piece = self.ev(args[2], env, depth)
+            piece = piece.get() if isinstance(piece, Ref) else piece
+            if not isinstance(cur, str) or not isinstance(piece, str) or not isinstance(at_, int):
+                raise Unknown("String::insert on %r" % (cur,))
+            b_ = cur.encode("utf-8")
+            if not (0 <= at_ <= len(b_)) or (at_ < len(b_) and (b_[at_] & 0xC0) == 0x80):
+                raise Unknown("core::panicking: String::insert(%d) is not on a char boundary of %r" % (at_, cur))
+            new_ = (b_[:at_] + piece.encode("utf-8") + b_[at_:]).decode("utf-8")
+            if target is not None:
+                target.set(new_)
+            else:
+                self.assign(args[0], new_, env, depth)
+            return ()
         if gen in ("alloc::string::String::push", "alloc::string::String::push_str"):
             cur = self.ev(args[0], env, depth)
             target = cur if isinstance(cur, Ref) else None
